@@ -11,6 +11,21 @@ CLAIMED = {
          "Bounds: counterparty strings <= 12 bytes quick / <= 33 bytes thorough (33 = one past the code's own MaxCounterpartyIDLength), full-id strings <= 8/12 bytes for the parser soundness harness, two pairs of <= 3/5 bytes for distinctness. Trusted: IsValidChannelID summarised as a byte predicate; fmt.Sprintf(%d)/FormatUint summarised relationally (x = sum d_i*10^i). Validated each run by native trace comparison.",
          "DESIGN.md §3 C20"),
 
+ "C01": ("One packet through the real IBCMiddleware.OnRecvPacket on the wired module (real keeper, adapter, dispatcher, executor, forwarder, fee and forwarding controllers) over an ICS-20 application model and a bank ledger: receiver = both spellings of the orbiter address, mixed case, other accounts, the blocked dust collector, empty, malformed and an ARBITRARY 48-byte string; all four denom classes; any amount (also <= 0 and non-numbers); six memo classes; every route and internal recipient (user, fee recipient, blocked account, the orbiter account itself, malformed); symbolic fees; arbitrary prior orbiter balances, escrow balance, pause and parameter configuration. Asserted on every path: success ack => orbiter balance of every tracked denom not larger than before; addressed to the orbiter account and success => nothing of the transferred denom left and exactly one bridge request.",
+         "Bounds: fee lists 0..1 quick / 0..2 thorough, passthrough 0..1 bytes, domains {0,5}; the two bounds profiles (all receivers x plain payload, orbiter receivers x all payloads) are not the full product. Relative to the ICS-20 / bank / bridge models and E1; an arbitrary receiver string other than a spelling of a known account is treated as undecodable.",
+         "DESIGN.md §3 C01"),
+ "C02": ("Same run as C01 restricted to successful orbiter transfers, with ledger-delta equations over ten tracked accounts x four denoms written in unbounded integers: escrow released exactly the packet coin; fee credits + outgoing = that coin; outgoing > 0; the dust collector gained exactly the prior orbiter balance; orbiter empty in the transferred denom; every other account and denom unchanged; total supply changes only by the CCTP burn. Amounts are SMT integers in [1, 2^256), fees symbolic (bps and fixed).",
+         "Bounds: fee lists 0..2 quick / 0..3 thorough, all three routes, internal recipient user / fee recipient (+ blocked, malformed in thorough). Relative to the bridge models (CCTP burns, warp locks collateral, bank credits).",
+         "DESIGN.md §3 C02"),
+ "C03": ("Same run with an independent symbolic failure bit at every fallible environment call (each bank send, the module-to-module sweep, the wrapped ICS-20 application, the Hyperlane token query, each bridge request, each event emission): success ack => no bit that was drawn on the path was set, exactly one bridge request happened, nothing is left on the orbiter account, every non-zero fee entry was paid and the processed event was emitted. All subsets of failures are covered because the bits are independent solver variables.",
+         "Bounds: fee lists 0..1 quick / 0..2 thorough; up to ~8 failure bits per path. Statistics write failures are the documented exception and do not occur in the collections summary. 'Fees are never kept' additionally needs E1 (IBC discards the cached context on an error ack).",
+         "DESIGN.md §3 C03"),
+ "C07": ("Same packet space restricted to traffic that is not an ICS-20 transfer whose receiver decodes to the orbiter account (incl. non-ICS-20 bytes and memos that contain a perfectly valid orbiter payload): the returned acknowledgement IS the object the wrapped application returned; the application was called exactly once with the identical packet and relayer; the content of every orbiter collection is identical before and after; no orbiter event, no bridge request, no bank read or write by orbiter; the orbiter and dust-collector accounts are untouched except by the application's own credit.",
+         "Bounds as C01. Acknowledgement / timeout / send callbacks are not driven: the middleware type embeds the wrapped interfaces; an explicit override added later would not be seen by this harness (stated gap). Under E2 the NewCrossChainID guard on the destination channel cannot fire.",
+         "DESIGN.md §3 C07"),
+ "C11": ("Two freshly wired modules receive the same drawn packet; one starts with arbitrary coins on the orbiter account (transferred denom and another denom), the other with none: equal acknowledgement class; on success equal balance deltas for every account but orbiter / dust collector, equal bridge requests and forwarded amounts, equal exported statistics; the prior coins of the transferred denom are exactly what the dust collector gained, nothing is left on the orbiter account, the other denom stays where it was.",
+         "Bounds: fee lists 0..1 quick / 0..2 thorough. Send restrictions of other modules on the sweep are outside the claim.",
+         "DESIGN.md §3 C11"),
  "C08": ("The real forwarder Msg and Query servers and the real middleware receive path on the wired module, against a reference model of the two pause sets: (step) from an ARBITRARY pause state one admin message of any kind, any protocol name (valid, unsupported, unknown, empty) and any batch of arbitrary counterparty strings — result error iff the reference says redundant/invalid, batches all-or-nothing (under E1 rollback), one event per accepted message, every pause query equals the reference sets; (enforce) from an arbitrary pause state a transfer to a symbolic destination over each route through OnRecvPacket is executed iff neither its protocol nor its (protocol, counterparty) pair is paused, else error ack and no bridge request; (history) sequences of messages from the empty state followed by a probe; (limit) batches of exactly 100 and 101 identifiers.",
          "Bounds: counterparty strings <= 1-2 bytes quick / 2-3 bytes thorough (IBC ids from {channel-0, channel-1, invalid}), batches 1..2 / 1..3, up to 1 / 2 pre-paused pairs plus any subset of paused protocols, histories of 2 / 3 messages, probe domains < 1000. Empty batches (which pause the whole protocol) are outside the claim. Collections are summarised as association lists incl. the SDK default page size of 100; paging is not decided.",
          "DESIGN.md §3 C08"),
